@@ -262,12 +262,19 @@ class WsgiEdge(EdgeServer, WsgiServer):
 
     def _enqueue_envelope(self, env):
         results = self.handoff(env)
-        if isinstance(results[0][1], QueueError):
+        # The message may have been split into several envelopes, report
+        # success only if every one of them was queued.
+        error = results[0][1]
+        for _, result in results:
+            if isinstance(result, (QueueError, RelayError)):
+                error = result
+                break
+        if isinstance(error, QueueError):
             default_reply = Reply('451', '4.3.0 Error queuing message')
-            reply = getattr(results[0][1], 'reply', default_reply)
+            reply = getattr(error, 'reply', default_reply)
             raise _build_http_response(reply)
-        elif isinstance(results[0][1], RelayError):
-            relay_reply = results[0][1].reply
+        elif isinstance(error, RelayError):
+            relay_reply = error.reply
             raise _build_http_response(relay_reply)
         reply = Reply('250', '2.6.0 Message accepted for delivery')
         raise _build_http_response(reply)
